@@ -16,6 +16,7 @@ def run(ctx):
         "segment. Not decided: the merge's string arithmetic and RFC equality for all pairs.")
     K = make_kinds(ctx.model)
     flow.f3_join(ctx)
+    flow.f_sink(ctx)        # the components F3 reads off the constructor call are the components of the result
     k1(ctx, K, only={"_url.URL.join"})
     order.ord1(ctx, K)
     order.em_norm(ctx)
